@@ -4,6 +4,6 @@
 (assert
  (not (<= 1 attempts!1)))
 (assert
- (let (($x32 (< attempts!1 1)))
-(not $x32)))
+ (let (($x33 (< attempts!1 1)))
+(not $x33)))
 (check-sat)
